@@ -44,6 +44,27 @@ fn repr_json(h: &Huffman) -> Value {
     )
 }
 
+/// The other ways `repr()` can be read: `len()` / `size_hint()` of the iterator, the iterator walked from the
+/// back, and the `Display` form of every code word -- logged next to `repr`, compared by the trace specification.
+fn repr_views(h: &Huffman) -> Value {
+    let it = h.repr().into_iter();
+    let len = it.len();
+    let hint = it.size_hint();
+    let mut back: Vec<Value> = h
+        .repr()
+        .into_iter()
+        .rev()
+        .map(|s| Value::Array((0..s.num_bits()).map(|i| json!(if s.bit(i) { 1 } else { 0 })).collect()))
+        .collect();
+    back.reverse();
+    let disp: Vec<Value> = h
+        .repr()
+        .into_iter()
+        .map(|s| Value::Array(format!("{}", s).chars().map(|c| json!(if c == '1' { 1 } else if c == '0' { 0 } else { 2 })).collect()))
+        .collect();
+    json!({"len": len, "hint_lo": hint.0, "hint_hi": hint.1.map(|x| x as i64).unwrap_or(-1), "back": back, "disp": disp})
+}
+
 fn freq_hex(f: &[u32]) -> String {
     f.iter().map(|x| format!("{:08x}", x)).collect()
 }
@@ -61,7 +82,7 @@ fn table_builtin(freq_file: &str) -> (Tab, Value) {
     let f = read_freqs(freq_file);
     let r = catch(|| RefHuffman::from_frequencies(&f)).ok();
     let h: Huffman = TEEWORLDS;
-    let ev = json!({"e": "table", "kind": "builtin", "res": "ok", "repr": repr_json(&h), "ref": r.is_some(), "fhi": [], "flo": [], "freq_hex": ""});
+    let ev = json!({"e": "table", "kind": "builtin", "res": "ok", "repr": repr_json(&h), "views": repr_views(&h), "ref": r.is_some(), "fhi": [], "flo": [], "freq_hex": ""});
     (Tab { h, builtin: true, r }, ev)
 }
 
@@ -73,12 +94,12 @@ fn table_freq(f: &[u32]) -> (Option<Tab>, Value) {
     match guarded(CALL_MS, || Huffman::from_frequencies(f)) {
         Ok(h) => {
             let r = if ref_comparable(f) { catch(|| RefHuffman::from_frequencies(f)).ok() } else { None };
-            let ev = json!({"e": "table", "kind": "freq", "res": "ok", "repr": repr_json(&h), "ref": r.is_some(),
+            let ev = json!({"e": "table", "kind": "freq", "res": "ok", "repr": repr_json(&h), "views": repr_views(&h), "ref": r.is_some(),
                             "fhi": fhi, "flo": flo, "freq_hex": freq_hex(f)});
             (Some(Tab { h, builtin: false, r }), ev)
         }
         Err(msg) => {
-            let ev = json!({"e": "table", "kind": "freq", "res": "panic", "repr": [], "ref": false,
+            let ev = json!({"e": "table", "kind": "freq", "res": "panic", "repr": [], "views": {}, "ref": false,
                             "fhi": fhi, "flo": flo, "freq_hex": freq_hex(f), "panic": msg, "at": vh_common::last_panic_location()});
             (None, ev)
         }
@@ -325,6 +346,116 @@ fn replay(freq_file: &str, path: &str) {
     );
 }
 
+/// Direction A for tables: TLC's family of frequency vectors (`@F <<name, fhi, flo, height, code, vectors>>`).
+/// The table is built by the real from_frequencies (a panic is what the specification predicts for a height
+/// above 24), repr() is compared with the predicted code, the vectors are executed; whatever differs is
+/// written (table event first) to the mismatch trace for HuffmanTrace.tla.  For every table that was built
+/// the run / truncation drivers record behaviour into `rec` (validated like direction B).
+fn replay_freq(seed: u64, full: bool, path: &str, rec: &str) {
+    let mut out = std::fs::File::create(path).expect("create");
+    let mut recw = std::io::BufWriter::new(std::fs::File::create(rec).expect("create"));
+    let mut rng = StdRng::seed_from_u64(seed ^ 0x5eed);
+    let (mut tables, mut built, mut panics, mut vectors, mut calls, mut mism, mut nontrivial) = (0u64, 0u64, 0u64, 0u64, 0u64, 0u64, 0u64);
+    let (mut events, mut rcalls) = (0u64, 0u64);
+    let mut heights: Vec<i64> = vec![];
+    let mut names: Vec<String> = vec![];
+    let mut msamples: Vec<Value> = vec![];
+    for_each_export(|tag, v| {
+        if tag != 'F' {
+            return;
+        }
+        let name = v[0].as_str().unwrap_or("").to_string();
+        let f: Vec<u32> = v[1].as_array().unwrap().iter().zip(v[2].as_array().unwrap()).map(|(h, l)| ((h.as_u64().unwrap() as u32) << 16) | l.as_u64().unwrap() as u32).collect();
+        let h = v[3].as_i64().unwrap();
+        tables += 1;
+        heights.push(h);
+        if !names.contains(&name) {
+            names.push(name.clone());
+        }
+        let (t, tev) = table_freq(&f);
+        let mut evs: Vec<Value> = vec![];
+        let mut ok = match &t {
+            None => {
+                panics += 1;
+                h > 24
+            }
+            Some(t) => {
+                built += 1;
+                h <= 24 && repr_json(&t.h) == v[4]
+            }
+        };
+        if let Some(t) = &t {
+            for c in v[5].as_array().unwrap() {
+                // <<s, e, eb, [k |-> decoding of the first k - 1 bytes of e at capacity n + 1]>>
+                let s = bytes_of(&c[0]);
+                let e = bytes_of(&c[1]);
+                let eb = bytes_of(&c[2]);
+                let n = s.len() as i64;
+                set_case(&format!("huffman family {} vector {:?}", name, s));
+                vectors += 1;
+                nontrivial += (!s.is_empty()) as u64;
+                let runs: Vec<(&str, i64)> = vec![("compress", -1), ("compress_into", e.len() as i64), ("compress_into", (e.len() as i64 - 1).max(0)),
+                                                  ("compress_bug", eb.len() as i64), ("compress_bug", (eb.len() as i64 - 1).max(0))];
+                let ce = comp_event(t, &s, &runs);
+                ok &= ce["clen"] == json!(e.len()) && ce["clenb"] == json!(eb.len()) && (ce["ref_res"] == "none" || (ce["ref_res"] == "ok" && bytes_of(&ce["ref"]) == eb));
+                for r in ce["runs"].as_array().unwrap() {
+                    let want = if r["api"] == "compress_bug" { &eb } else { &e };
+                    let cap = r["cap"].as_i64().unwrap();
+                    ok &= r["canary"] == true && if cap < 0 || cap as usize >= want.len() { r["res"] == "ok" && &bytes_of(&r["out"]) == want } else { r["res"] == "capacity" };
+                    calls += 1;
+                }
+                evs.push(ce);
+                for inp in [&e, &eb] {
+                    let de = decomp_event(t, inp, &[("decompress", -1), ("decompress_into", n + 1), ("decompress_into", n), ("decompress_into", (n - 1).max(0))]);
+                    for r in de["runs"].as_array().unwrap() {
+                        let cap = r["cap"].as_i64().unwrap();
+                        ok &= r["canary"] == true && if cap < 0 || cap >= n { r["res"] == "ok" && bytes_of(&r["out"]) == s } else { r["res"] != "ok" && r["res"] != "panic" };
+                        calls += 1;
+                    }
+                    evs.push(de);
+                }
+                for (k, exp) in c[3].as_array().unwrap().iter().enumerate() {
+                    let de = decomp_event(t, &e[..k.min(e.len())], &[("decompress_into", n + 1)]);
+                    let r = &de["runs"][0];
+                    ok &= r["canary"] == true && if exp[0] == json!(1) { r["res"] == "ok" && r["out"] == exp[1] } else { r["res"] != "ok" && r["res"] != "panic" }
+                        && (r["ref_res"] != "ok" || (r["res"] == "ok" && r["ref"] == r["out"]));
+                    calls += 1;
+                    evs.push(de);
+                }
+            }
+            // recorded behaviour under this table
+            writeln!(recw, "{}", tev).unwrap();
+            events += 1;
+            if full {
+                drive_table_systematic(t, &mut rng, &mut recw, &mut events, &mut rcalls);
+            }
+            drive_table_runs(t, &mut rng, if full { 2 } else { 0 }, &mut recw, &mut events, &mut rcalls);
+        } else {
+            writeln!(recw, "{}", tev).unwrap();
+            events += 1;
+        }
+        if !ok {
+            mism += 1;
+            if msamples.len() < 3 {
+                msamples.push(json!({"family": name, "height": h, "table": {"res": tev["res"], "freq_hex": tev["freq_hex"]}}));
+            }
+            if mism <= 20 {
+                writeln!(out, "{}", tev).unwrap();
+                for ev in &evs {
+                    writeln!(out, "{}", ev).unwrap();
+                }
+            }
+        }
+    });
+    recw.flush().unwrap();
+    heights.sort();
+    println!(
+        "SUMMARY {}",
+        json!({"tables": tables, "tables_built": built, "tables_panicked": panics, "vectors": vectors, "nontrivial": nontrivial, "calls": calls + rcalls, "mismatch_cases": mism,
+               "mismatch_samples": msamples, "samples": [], "heights": heights, "families": names, "events": events, "reference_linked": true})
+    );
+}
+
 // ---------------------------------------------------------------- direction B
 
 fn rnd_input(rng: &mut StdRng, maxlen: usize) -> Vec<u8> {
@@ -454,6 +585,97 @@ fn drive_table_systematic(t: &Tab, rng: &mut StdRng, out: &mut dyn Write, events
     }
 }
 
+/// Runs of one symbol under the table in force: for each interesting byte (00, ff, the byte with the shortest
+/// code word, the byte with the longest one) runs of 1..40 repetitions starting at every bit alignment of the
+/// compressed stream (the alignment is set by a prefix of other symbols whose code lengths add up to it), some
+/// followed by another symbol; compressed through all entry points at the exact capacity (and one byte less),
+/// with the reference on the same event, and decompressed again.
+fn drive_table_runs(t: &Tab, rng: &mut StdRng, level: u8, out: &mut dyn Write, events: &mut u64, calls: &mut u64) -> Value {
+    let mut emit = |e: Value, events: &mut u64, calls: &mut u64| {
+        *calls += e["runs"].as_array().map(|a| a.len()).unwrap_or(0) as u64;
+        writeln!(out, "{}", e).unwrap();
+        *events += 1;
+    };
+    let lens: Vec<u32> = t.h.repr().into_iter().take(256).map(|s| s.num_bits()).collect();
+    let shortest = (0..256).min_by_key(|&i| lens[i]).unwrap() as u8;
+    let longest = (0..256).max_by_key(|&i| lens[i]).unwrap() as u8;
+    let mut syms: Vec<u8> = vec![0, 0xff, shortest, longest];
+    syms.dedup();
+    let mut seen = vec![];
+    syms.retain(|x| {
+        let new = !seen.contains(x);
+        seen.push(*x);
+        new
+    });
+    let (mut n_runs, mut aligned) = (0u64, [false; 8]);
+    for &sym in &syms {
+        // prefixes (without sym) that end at each bit offset 0..7: shortest sequences over three other bytes
+        let mut others: Vec<u8> = vec![];
+        for b in 0..=255u8 {
+            if b != sym && !others.iter().any(|&o| lens[o as usize] % 8 == lens[b as usize] % 8) && lens[b as usize] % 8 != 0 {
+                others.push(b);
+            }
+            if others.len() == 3 {
+                break;
+            }
+        }
+        let mut prefix: Vec<Option<Vec<u8>>> = vec![None; 8];
+        prefix[0] = Some(vec![]);
+        for _ in 0..8 {
+            for a in 0..8usize {
+                if let Some(p) = prefix[a].clone() {
+                    for &o in &others {
+                        let b = (a + lens[o as usize] as usize) % 8;
+                        if prefix[b].is_none() {
+                            let mut q = p.clone();
+                            q.push(o);
+                            prefix[b] = Some(q);
+                        }
+                    }
+                }
+            }
+        }
+        // level 2: every length 1..40; 1: lengths around the byte boundaries; 0: the fewest (tables of the TLC family, quick tier)
+        let at0: Vec<usize> = match level {
+            2 => (1..=40).collect(),
+            1 => vec![1, 2, 7, 8, 9, 15, 16, 17, 24, 32, 40],
+            _ => vec![1, 8, 9, 40],
+        };
+        let shifted: Vec<usize> = match level {
+            2 => vec![1, 7, 8, 9, 16, 17, 33],
+            1 => vec![8, 9, 16],
+            _ => vec![8],
+        };
+        for a in 0..8usize {
+            let p = match &prefix[a] {
+                Some(p) => p.clone(),
+                None => continue,
+            };
+            aligned[a] = true;
+            for &k in if a == 0 { &at0 } else { &shifted } {
+                let mut input = p.clone();
+                input.extend(std::iter::repeat(sym).take(k));
+                if rng.gen_range(0..3) == 0 {
+                    input.push(rng.gen());
+                }
+                set_case(&format!("huffman run of {} x {:02x} at bit {}", k, sym, a));
+                let probe = do_comp(t, &input, "compress", -1, false);
+                let clen = probe["clen"].as_i64().unwrap_or(0).max(0);
+                let clenb = probe["clenb"].as_i64().unwrap_or(0).max(0);
+                let runs: Vec<(&str, i64)> = vec![("compress", -1), ("compress_into", clen), ("compress_into", (clen - 1).max(0)), ("compress_bug", clenb)];
+                emit(comp_event(t, &input, &runs), events, calls);
+                n_runs += 1;
+                if n_runs % 4 == 0 || k == 8 {
+                    let comp = bytes_of(&probe["out"]);
+                    let n = input.len() as i64;
+                    emit(decomp_event(t, &comp, &[("decompress", -1), ("decompress_into", n), ("decompress_into", (n - 1).max(0))]), events, calls);
+                }
+            }
+        }
+    }
+    json!({"runs": n_runs, "alignments": aligned.iter().filter(|&&x| x).count(), "symbols": syms.len()})
+}
+
 /// Shape of a table, for the run summary only: (EOF code length, EOF all zeros, EOF ends in 1).
 fn eof_shape(h: &Huffman) -> (u32, bool, bool) {
     let e = h.repr().into_iter().last().unwrap();
@@ -466,7 +688,51 @@ fn rnd_freqs(rng: &mut StdRng, k: usize) -> Vec<u32> {
     // saturated sums: most families keep every frequency >= 1 and the total below 2^32 so that the
     // table can be built; families 2, 7, 8, 9 aim at trees deeper than 24 (known finding F2).
     let mut f = vec![1u32; 256];
-    match k % 16 {
+    // the bytes whose code word is pushed to an extreme: 00 and ff in turn, then any
+    let pick = |rng: &mut StdRng, k: usize| -> usize {
+        match (k / 24) % 3 {
+            0 => 0,
+            1 => 255,
+            _ => rng.gen_range(0..256),
+        }
+    };
+    match k % 24 {
+        16 | 18 => {
+            // a byte that is the LIGHTER child of the root (between a third and a half of the total): the one-bit
+            // code word `0` (a dominant byte, family 12 / 17, gets `1`)
+            f.iter_mut().for_each(|x| *x = 100);
+            let s = if k % 24 == 16 { pick(rng, k) } else { 255 - pick(rng, k) };
+            f[s] = rng.gen_range(13_000..20_000);
+        }
+        17 => {
+            f.iter_mut().for_each(|x| *x = rng.gen_range(1..8));
+            f[255 - pick(rng, k)] = 1 << 30;
+        }
+        19 => {
+            // 00 and ff as rare as EOF (ties with it) resp. rarer: the longest code words
+            f.iter_mut().for_each(|x| *x = rng.gen_range(50..1000));
+            f[0] = (k / 24 % 2) as u32;
+            f[255] = 1 - (k / 24 % 2) as u32;
+        }
+        20 => {
+            // two heavy bytes (40 % and 35 %): code words of one and two bits
+            f.iter_mut().for_each(|x| *x = 10);
+            f[pick(rng, k)] = 4000;
+            f[(pick(rng, k) + 128) % 256] = 3500;
+        }
+        21 => f.iter_mut().enumerate().for_each(|(i, x)| *x = 1 << (i / 16)),       // ties between leaves and merged nodes everywhere
+        22 => {
+            // strictly increasing, one tie between neighbours at a random position
+            f.iter_mut().enumerate().for_each(|(i, x)| *x = 1000 + 10 * i as u32);
+            let j = rng.gen_range(0..255);
+            f[j + 1] = f[j];
+        }
+        23 => {
+            // sums that reach u32::MAX exactly at the root / just below
+            f.iter_mut().for_each(|x| *x = 1);
+            f[pick(rng, k)] = u32::MAX / 2;
+            f[(pick(rng, k) + 1) % 256] = u32::MAX / 2 - rng.gen_range(0..300);
+        }
         0 => f.iter_mut().for_each(|x| *x = rng.gen_range(1..1000)),
         1 => {}
         2 => f.iter_mut().for_each(|x| *x = 0),
@@ -510,7 +776,7 @@ fn rnd_freqs(rng: &mut StdRng, k: usize) -> Vec<u32> {
             // one dominant symbol over a flat base: the EOF code is all zeros (the endless zeros after
             // the input then *terminate* the stream)
             f.iter_mut().for_each(|x| *x = 4);
-            f[rng.gen_range(0..256)] = 1 << 30;
+            f[pick(rng, k)] = 1 << 30;
         }
         13 => {
             // exactly one zero frequency: EOF is the right sibling of that symbol (code ends in 1)
@@ -561,6 +827,9 @@ fn drive(freq_file: &str, seed: u64, cases: usize, maxlen: usize, tables: usize,
     events += 1;
     drive_table(&t, &mut rng, cases, maxlen, &mut out, &mut events, &mut calls);
     drive_table_systematic(&t, &mut rng, &mut out, &mut events, &mut calls);
+    let full: u8 = if tables > 40 { 2 } else { 1 };
+    let mut run_stats = vec![drive_table_runs(&t, &mut rng, full, &mut out, &mut events, &mut calls)];
+    let (mut zero_is_0, mut zero_is_1, mut ff_is_0, mut ff_is_1, mut zero_longest, mut ff_longest) = (0, 0, 0, 0, 0, 0);
     let mut panicked = 0;
     let (mut eof_zero, mut eof_one, mut eof_min, mut eof_max) = (0, 0, 99u32, 0u32);
     for k in 0..tables {
@@ -577,13 +846,26 @@ fn drive(freq_file: &str, seed: u64, cases: usize, maxlen: usize, tables: usize,
                 eof_max = eof_max.max(n);
                 drive_table(&t, &mut rng, 2, maxlen.min(256), &mut out, &mut events, &mut calls);
                 drive_table_systematic(&t, &mut rng, &mut out, &mut events, &mut calls);
+                run_stats.push(drive_table_runs(&t, &mut rng, full, &mut out, &mut events, &mut calls));
+                // which extremes were reached (run summary only)
+                let codes: Vec<(u32, bool)> = t.h.repr().into_iter().map(|s| (s.num_bits(), s.num_bits() > 0 && s.bit(0))).collect();
+                let maxlen_code = codes.iter().map(|c| c.0).max().unwrap_or(0);
+                zero_is_0 += (codes[0] == (1, false)) as u32;
+                zero_is_1 += (codes[0] == (1, true)) as u32;
+                ff_is_0 += (codes[255] == (1, false)) as u32;
+                ff_is_1 += (codes[255] == (1, true)) as u32;
+                zero_longest += (codes[0].0 == maxlen_code) as u32;
+                ff_longest += (codes[255].0 == maxlen_code) as u32;
             }
             None => panicked += 1,
         }
     }
     out.flush().unwrap();
     println!("SUMMARY {}", json!({"events": events, "calls": calls, "cases": cases, "tables": tables, "tables_panicked": panicked, "tables_eof_all_zero": eof_zero,
-        "tables_eof_ends_in_one": eof_one, "eof_len_min": eof_min, "eof_len_max": eof_max, "reference_linked": linked}));
+        "tables_eof_ends_in_one": eof_one, "eof_len_min": eof_min, "eof_len_max": eof_max, "reference_linked": linked,
+        "run_inputs": run_stats.iter().map(|r| r["runs"].as_u64().unwrap_or(0)).sum::<u64>(),
+        "run_alignments_min": run_stats.iter().map(|r| r["alignments"].as_u64().unwrap_or(0)).min().unwrap_or(0),
+        "extremes": {"00=0": zero_is_0, "00=1": zero_is_1, "ff=0": ff_is_0, "ff=1": ff_is_1, "00 longest": zero_longest, "ff longest": ff_longest}}));
 }
 
 fn rerun(freq_file: &str, inp: &str, outp: &str) {
@@ -633,6 +915,7 @@ fn run(a: &[String]) {
         Some("replay") => replay(&a[2], &a[3]),
         Some("drive") => drive(&a[2], a[3].parse().unwrap(), a[4].parse().unwrap(), a[5].parse().unwrap(), a[6].parse().unwrap(), &a[7]),
         Some("rerun") => rerun(&a[2], &a[3], &a[4]),
+        Some("replay-freq") => replay_freq(a[2].parse().unwrap(), a[3] == "full", &a[4], &a[5]),
         _ => {
             eprintln!("usage: vh-huffman replay <freqs> <mismatches> | drive <freqs> <seed> <cases> <maxlen> <tables> <trace> | rerun <freqs> <in> <out>");
             std::process::exit(2);
